@@ -590,7 +590,7 @@ def _gen_record(rng, kind, tx, gene):
 
 class NativeGvfRoundTrip(NativeCheck):
     name = 'gvf_roundtrip_and_index'
-    props = ('C13',)
+    props = ('C13', 'C06')
     functions = (f'{SIO}:line_to_variant_record', f'{CIO}:line_to_circ_model', f'{GVI}:iterate_pointer', f'{GVI}:GVFPointer.parse',
                  f'{POD}:VariantRecordPoolOnDisk.validate_gvf_index', f'{POD}:VariantRecordPoolOnDisk.load_index',
                  f'{POD}:VariantRecordPoolOnDisk.generate_index', f'{POD}:VariantRecordPoolOnDiskOpener.open')
